@@ -17,7 +17,7 @@ RULE = ("Tables of 1-3 fields with domains of 1-4 mixed hashables (ints, strings
         "StateActionNextStateTable, TabularPolicy. Non-trivial: >=2 fields and a collision-prone outer domain (full "
         "keys) or >=3 navigation steps (navigation); distinct by spec hash."
         ' Also: domaintuple keys, inner domains that are re-ordered subsets of the outer one, over-long keys containing an ellipsis.'
-        " float32 / int64 / longdouble tables, cells compared in the table's own number type.")
+        " float32 / int64 / longdouble tables, cells compared in the table's own number type. Outermost domains of 257-520 keys.")
 ASSUMPTIONS = ["only the selector forms the statement names are generated (no tuple multi-selectors inside a key)",
                "for a foreign key get(k, default) may return the default or raise; only 'never a cell' is asserted"]
 
@@ -63,6 +63,27 @@ def table_specs(draw, classes=CLASSES):
             doms[f].append(comp)
     return {"cls": cls, "fields": [[enc(e) for e in d] for d in doms], "collide": collide,
             "dtype": draw(st.sampled_from([None, None, None, "float32", "int64", "longdouble"])) if cls in ("Table", "StateTable", "StateActionTable") else None}
+
+
+def _expand_wide(args):
+    """a table whose outermost domain has 257-520 keys (integers that are not their own position, or strings), expanded from
+    a drawn seed; inner domains stay tiny"""
+    import random
+    cls, nf, k, kind, seed, dtype = args
+    r = random.Random(seed)
+    outer = r.sample(range(-k, 2 * k), k) if kind == "int" else [f"k{i}" for i in r.sample(range(3 * k), k)]
+    doms = [outer] + [[ATOMS[i] for i in r.sample(range(6), r.randint(1, 2))] for _ in range(nf - 1)]
+    if cls == "StateActionNextStateTable":
+        doms[2] = list(doms[0])
+    return {"cls": cls, "fields": [[enc(e) for e in d] for d in doms], "collide": False,
+            "dtype": dtype if cls in ("Table", "StateTable", "StateActionTable") else None}
+
+
+def wide_table_specs(classes=("Table", "ProbabilityTable", "StateTable", "StateActionTable", "TabularPolicy"), sizes=(257, 300, 520)):
+    nf = {"StateTable": 1, "StateActionTable": 2, "TabularPolicy": 2}
+    return st.sampled_from(list(classes)).flatmap(lambda cls: st.tuples(
+        st.just(cls), st.just(nf[cls]) if cls in nf else st.integers(1, 2), st.sampled_from(list(sizes)),
+        st.sampled_from(["int", "str"]), st.integers(0, 2 ** 32), st.sampled_from([None, "float32", "int64"]))).map(_expand_wide)
 
 
 def build_table(spec):
@@ -286,7 +307,7 @@ def prop_keys(spec, ctx):
     ctx.event("cls=" + spec["cls"])
     if spec["collide"]:
         ctx.event("collision_domain")
-    ctx.nontrivial(nf >= 2 and spec["collide"])
+    ctx.nontrivial((nf >= 2 and spec["collide"]) or len(doms[0]) > 256)
 
 
 def prop_probrows(spec, ctx):
@@ -410,6 +431,11 @@ def prop_navigate(case, ctx):
 PROPS = [
     Prop("keys", lambda tier: table_specs(), prop_keys, quick=3000, thorough=150000,
          doc="all full / nested / partial keys, outer-key lists, slices, ellipses and foreign keys of a generated table"),
+    Prop("keys_wide", lambda tier: wide_table_specs(sizes=(257,) if tier == "quick" else (257, 300, 520)), prop_keys, quick=3, thorough=400,
+         doc="the same on tables whose outermost domain has 257-520 keys"),
+    Prop("probrows_wide", lambda tier: wide_table_specs(classes=("ProbabilityTable", "TabularPolicy"), sizes=(257,) if tier == "quick" else (257, 300, 520)),
+         prop_probrows, quick=3, thorough=300,
+         doc="rows of probability tables / policies with 257-520 rows"),
     Prop("probrows", lambda tier: table_specs(classes=["ProbabilityTable", "TabularPolicy"]), prop_probrows, quick=1500,
          thorough=45000, doc="rows of probability tables and tabular policies as distributions"),
     Prop("navigate", lambda tier: nav_cases(tier), prop_navigate, quick=4000, thorough=240000,
